@@ -76,7 +76,7 @@ def _gen_stmt(rng, layout, here, is_init, cfg, idx, in_class=False):
     if in_class:
         kinds = ["def", "from", "attr"]
     if cfg["allplus"] and not in_class:
-        kinds.append("allplus")
+        kinds += ["allplus", "allplus", "allplus"]
     k = rng.choice(kinds)
     if k == "def":
         return {"s": "def", "name": rng.choice(NAMES), "doc": rng.random() < 0.4}
@@ -149,6 +149,7 @@ def generate(rng, opts):
         "p_relative": rng.choice([0.0, 0.3, 0.7]),
         "faults": rng.random() < 0.35,
         "wildcards": rng.random() < 0.75,
+        "links": rng.random() < 0.3,
     }
     n_pkgs = rng.choice([1, 1, 2, 2, 3])
     layout = {}
@@ -194,6 +195,9 @@ def generate(rng, opts):
         elif r < 0.9:
             acc = rng.choice(ACCESSORS_NEVER_RAISE + ACCESSORS_ALIAS_ERRORS)
             ops.append({"op": "deref", "k": rng.randrange(64), "acc": acc})
+        elif r < 0.92 and cfg["links"]:
+            # what an extension or the inspector does: point an alias at an object (possibly another alias) directly
+            ops.append({"op": "link", "k": rng.randrange(64), "to": rng.randrange(64)})
         elif r < 0.94:
             ops.append({"op": "expand_exports", "k": rng.randrange(8), "loader": rng.randrange(2)})
         elif r < 0.98:
@@ -235,6 +239,7 @@ class _Tracker:
 
     def __init__(self, griffe):
         self.born_from_wildcard = set()
+        self.linked = set()
         tracker = self
 
         class Ext(griffe.Extension):
@@ -470,6 +475,24 @@ def _step(ctx, g, w, coll, loaders, tracker, op, budget_mode, faulty_pkgs, all_p
             trace.append(f"deref-{outcome}")
             if outcome != "ok":
                 ctx.fault("deref-" + outcome)
+        elif kind == "link":
+            aliases = _aliases(coll)
+            if len(aliases) < 2:
+                return True
+            a = aliases[op["k"] % len(aliases)]
+            b = aliases[op["to"] % len(aliases)]
+            try:
+                a.target = b
+                outcome = "ok"
+            except alias_errors as e:
+                outcome = type(e).__name__
+            except Exception as e:  # noqa: BLE001
+                ctx.fail("I1-accessor-raised", f"{_apath(a)}.target = <alias {_apath(b)}> raised {type(e).__name__}: {w.norm(str(e))[:160]}", exc=e)
+                return False
+            tracker.linked.add(id(a))
+            ctx.log("link", (_apath(a), _apath(b), outcome))
+            trace.append("link")
+            ctx.fault("direct-retarget")
         elif kind in ("expand_exports", "expand_wildcards"):
             mods = _modules(coll)
             if not mods:
@@ -535,7 +558,9 @@ def _check_structure(ctx, g, coll, tracker, all_pkgs):
         cyclic = False
         born = id(a) in tracker.born_from_wildcard
         view = False
+        linked = False
         while t.is_alias:
+            linked = linked or id(t) in tracker.linked
             if t._parent is not None and t._parent.is_alias:
                 view = True  # a transient alias produced by Alias.members (member of an alias to a module/class)
             if any(t is s for s in seen):
@@ -547,6 +572,9 @@ def _check_structure(ctx, g, coll, tracker, all_pkgs):
                 partial = True
                 break
             t = t._target
+        if partial and linked:
+            ctx.probe("partial-chain-made-by-direct-retarget")  # the caller pointed an alias at an unresolved alias
+            continue
         if partial:
             ctx.fail("I3-partial-chain", f"alias {_apath(a)} is marked resolved but its chain stops at the unresolved link {_apath(t)} -> {t.target_path}", tags=(["chain-through-wildcard-born-alias"] if born else []) + (["chain-through-alias-member-view"] if view else []))
             return False
